@@ -143,17 +143,20 @@ class TriggerContext:
             return SpanActionContext(self, action)
         return NoActionContext(self, action)
 
-    def evaluate_expression(self, expression: str) -> any:
+    def evaluate_expression(self, expression: str, raise_errors: bool = False) -> any:
         """
         Evaluate an expression to a value.
 
         :param expression: the expression
+        :param raise_errors: set to True to have a failure raised, so it can be told apart from a result
         :return: the result of the expression, or the exception that was raised.
         """
         try:
             # evaluate in the scope of the paused frame: its module globals and its locals - not our own globals
             return eval(expression, getattr(self.__frame, 'f_globals', None), self.__frame.f_locals)
         except BaseException as e:
+            if raise_errors:
+                raise
             return e
 
     def attach_result(self, result: ActionResult):
